@@ -242,6 +242,15 @@ func enumPaths(fn *ssa.Function, start ssa.Instruction, isEvent func(ssa.Instruc
 		}
 		for i := from; i < len(b.Instrs); i++ {
 			in := b.Instrs[i]
+			if visits[b] >= 2 {
+				// second dynamic instance of this instruction: facts about the
+				// previous instance of its value (and of values computed from it) are stale
+				if v, ok := in.(ssa.Value); ok {
+					if _, isPhi := in.(*ssa.Phi); !isPhi {
+						forget(st, v)
+					}
+				}
+			}
 			if isEvent != nil && isEvent(in) {
 				st.Events = append(st.Events, in)
 			}
@@ -301,32 +310,24 @@ func enumPaths(fn *ssa.Function, start ssa.Instruction, isEvent func(ssa.Instruc
 	return ok
 }
 
+func forget(st *pathState, v ssa.Value) {
+	delete(st.Facts, v)
+	for k := range st.Facts {
+		if in, ok := k.(ssa.Instruction); ok {
+			for _, op := range in.Operands(nil) {
+				if *op == v {
+					delete(st.Facts, k)
+					break
+				}
+			}
+		}
+	}
+}
+
 func enter(succ, pred *ssa.BasicBlock, st *pathState, visits map[*ssa.BasicBlock]int,
 	walk func(b *ssa.BasicBlock, from int, st *pathState, visits map[*ssa.BasicBlock]int)) {
 	if visits[succ] >= 2 {
 		return
-	}
-	if visits[succ] == 1 {
-		// re-entering a loop: forget facts about values (re)computed since the
-		// first visit, they denote a new dynamic instance
-		idx := -1
-		for i, bb := range st.Blocks {
-			if bb == succ {
-				idx = i
-				break
-			}
-		}
-		if idx >= 0 {
-			redefined := map[*ssa.BasicBlock]bool{}
-			for _, bb := range st.Blocks[idx:] {
-				redefined[bb] = true
-			}
-			for v := range st.Facts {
-				if in, ok := v.(ssa.Instruction); ok && redefined[in.Block()] {
-					delete(st.Facts, v)
-				}
-			}
-		}
 	}
 	nv := make(map[*ssa.BasicBlock]int, len(visits)+1)
 	for k, v := range visits {
